@@ -197,9 +197,9 @@ def rand_ext(rng, ids=None):
         return (rng.choice([0xABCD, 0x1234, 0xC0DE, 0xC2DE, 0x1010]), rand_key(rng, 4 * rng.choice([0, 1, 2])))
 
 
-def rand_rtp(rng, ssrc, seq, ext_ok=True, ids=None, big=False):
+def rand_rtp(rng, ssrc, seq, ext_ok=True, ids=None, big=False, ext_p=0.5):
     cc = rng.choice([0, 0, 0, 1, 2, 15])
-    ext = rand_ext(rng, ids) if ext_ok and rng.random() < 0.5 else None
+    ext = rand_ext(rng, ids) if ext_ok and rng.random() < ext_p else None
     n = rng.choice([0, 1, 15, 16, 17, 31, 32, 33, 100, 160])
     if big:
         n = rng.choice([1000, 1400, 4095, 4096, 4097])
